@@ -3177,6 +3177,9 @@ class FST:
 
                 self._offset(*params_offset, False, True, self_=False)
 
+                if end_ln != ln:  # blocks below which end on the first line of the span may have had a trailing comment there as part of their bounding location, _offset() only knows about the end of the span
+                    self._touchall(False, False, True)
+
         elif action is None:
             self._put_src(put_lines, ln, col, end_ln, end_col)
             self._touchall(True, True, False)  # touch parents to clear bloc caches because comment on last child statement is included in parent bloc, include self_ just to be sure
